@@ -36,6 +36,20 @@ def export_schema(binary, types=()):
     return _schema[key]
 
 
+_all_types = {}
+
+
+def all_types(binary):
+    """every message type registered in the harness process (see module typelist)"""
+    if binary not in _all_types:
+        inp = os.path.join(scratch(), "typelist.in")
+        with open(inp, "w") as fh:
+            fh.write("{}\n")
+        harness(binary, ["exec", "typelist", inp, inp + ".out"])
+        _all_types[binary] = next(read_ndjson(inp + ".out"))["out"]["types"]
+    return _all_types[binary]
+
+
 def tlaset(xs):
     return "{" + ",".join(str(x) for x in xs) + "}"
 
@@ -131,11 +145,24 @@ SWEEP_TYPES = ["goproto.proto.testeditions.TestAllTypes:dyn", "opaque.goproto.pr
                "goproto.proto.test.TestAllTypes", "goproto.proto.test3.TestAllTypes:dyn"]
 
 
-def finish(res, binary, seed, tier, mix, nq=300, nt=12000, types=None, sweep=False):
+def finish(res, binary, seed, tier, mix, nq=300, nt=12000, types=None, sweep=False, rotate=False):
     n = nq if tier == "quick" else nt
     os.environ["VERIF_MIX"] = mix
     try:
         drive_hist(res, binary, seed, n, types=types, shards=3 if tier == 'quick' else 4)
+        if rotate:
+            # the rotating part of the corpus: message shapes nobody hand-picked (F26 lived in one).  quick: 8 types drawn
+            # by the seed from EVERY message type linked into the harness; thorough: all of them, in chunks.
+            import random
+            every = all_types(binary)
+            if tier == "quick":
+                pick = random.Random(seed * 7919 + int(res.prop[1:])).sample(every, 8)
+                drive_hist(res, binary, seed, 100, types=pick + [t + ":dyn" for t in pick[:4]], shards=2, label="hist-rot")
+            else:
+                for i in range(0, len(every), 40):
+                    chunk = every[i:i + 40]
+                    drive_hist(res, binary, seed, 1500, types=chunk + [t + ":dyn" for t in chunk], shards=4, label="hist-rot%d" % i)
+            res.notes.append("rotating corpus: %d message types linked into the harness (MessageSet-reaching types only in protolegacy builds)" % len(every))
         if sweep:
             # systematic: every length-delimited body length around 127/128 and 16383/16384, three routes, fast and reflection path
             os.environ["VERIF_HIST_SWEEP"] = "boundary"
@@ -170,7 +197,7 @@ def c03(res, tier, seed):
     mc(res, b, "rt-te", BASE_TE, [1, 5, 12, 14, 16, 31, 44, 56, 112], ["rt", "setu"], D(tier, 2, 3), nest_at=18, nest_fields=[1])
     mc2(tier, res, b, "rt-t3", BASE_T3, [1, 81, 92, 94, 31, 56, 112], ["rt"], D(tier, 2, 3))
     mc2(tier, res, b, "rt-t2", BASE_T2, [1, 12, 16, 31, 56, 112], ["rt", "setu"], 2)
-    finish(res, b, seed, tier, "mut=10,marshal=3,unmarshal=3,rt=5,reset=1,clone=1,boundary=3", sweep=True)
+    finish(res, b, seed, tier, "mut=10,marshal=3,unmarshal=3,rt=5,reset=1,clone=1,boundary=3", sweep=True, rotate=True)
 
 
 @check("C04")
@@ -223,7 +250,7 @@ def c10(res, tier, seed):
     # a oneof whose SECOND member carries the required field (F26: the table decoder consulted only the first member's isInit)
     mc(res, b, "req-oneof", REQ_ONEOF, [1, 2], ["checkinit", "marshal", "uenc", "merge"], D(tier, 2, 3), nest_at=2, nest_fields=[1])
     mc2(tier, res, b, "req-t2", REQ_T2, [1, 2, 3], ["checkinit", "marshal", "uenc"], 2, nest_at=1, nest_fields=[1])
-    finish(res, b, seed, tier, "mut=10,checkinit=4,marshal=3,unmarshal=4,rt=1,merge=1", types=REQ_TYPES)
+    finish(res, b, seed, tier, "mut=10,checkinit=4,marshal=3,unmarshal=4,rt=1,merge=1", types=REQ_TYPES, rotate=True)
 
 
 @check("C11")
